@@ -1,5 +1,6 @@
 import Femio.Model.Attr
 import Femio.Model.Core
+import Femio.Model.AttrLayout
 import Femio.Lemmas.AttrProps
 import Femio.Lemmas.AttrUpdate
 import Femio.Lemmas.AttrHist
@@ -443,5 +444,144 @@ theorem C08_counterexample_slice_alias :
 /-- … in the repaired code the slice is a snapshot in both views -/
 example : let h := [HOp.takeView [0, 1], .pub (.locWrite [2] [[some (-20)]])].foldl (hstep Cfg.fixed) ⟨sDense, [], 0, []⟩
     h.held.map InvB = [true] ∧ h.held.map (·.data) = [[[some 1], [some 2]]] := by decide
+
+/-! ### round 4, class F: the dtype of the ids and the memory layout of the rows are not part of the table
+
+Two shortcuts that are right for everything femio's readers and tests produce (signed ids, C-ordered arrays) and wrong inside the
+property's quantifier; stated here with the reason why the usual inputs cannot see them. -/
+section LayoutAndDtype
+open AttrLayout
+
+theorem diffU_pos (bits a b : Nat) (ha : a < 2 ^ bits) (hb : b < 2 ^ bits) (hne : a ≠ b) : 0 < diffU bits a b := by
+  unfold diffU
+  have hM : 0 < 2 ^ bits := Nat.two_pow_pos bits
+  generalize 2 ^ bits = M at *
+  rcases Nat.eq_zero_or_pos ((b + M - a) % M) with h0 | h0
+  · exfalso
+    obtain ⟨k, hk⟩ := Nat.dvd_of_mod_eq_zero h0
+    rcases k with _ | _ | k
+    · simp at hk; omega
+    · simp at hk; omega
+    · have h2 : M * 2 ≤ M * (k + 1 + 1) := Nat.mul_le_mul_left M (by omega)
+      omega
+  · exact h0
+
+/-- **C08_unsigned_guard_vacuous**: on duplicate-free ids stored in an unsigned dtype of `bits` bits the test
+`np.all(np.diff(ids) > 0)` is true for EVERY storage order (the difference wraps around and is never negative, and it is never zero
+because the ids are distinct): as a guard for "the ids are already ascending" it says nothing. -/
+theorem C08_unsigned_guard_vacuous (bits : Nat) (ids : List Nat) (hn : ids.Nodup) (hb : ∀ i ∈ ids, i < 2 ^ bits) :
+    looksAscendingU bits ids = true := by
+  unfold looksAscendingU
+  induction ids with
+  | nil => rfl
+  | cons a t ih =>
+    cases t with
+    | nil => rfl
+    | cons b t' =>
+      have hn' := List.nodup_cons.mp hn
+      have hab : a ≠ b := by
+        intro h; subst h; exact hn'.1 (by simp)
+      have h1 := diffU_pos bits a b (hb a (by simp)) (hb b (by simp)) hab
+      have h2 := ih hn'.2 (fun i hi => hb i (List.mem_cons_of_mem _ hi))
+      simp only [adjAll, Bool.and_eq_true, decide_eq_true_eq]
+      exact ⟨h1, h2⟩
+
+example : looksAscendingU 32 [1, 4, 6, 2, 3, 5, 7] = true ∧ looksAscendingS [1, 4, 6, 2, 3, 5, 7] = false := by decide
+
+theorem adjAll_lt_pairwise (l : List Nat) (h : adjAll (fun a b => decide (a < b)) l = true) : l.Pairwise (· < ·) := by
+  induction l with
+  | nil => exact List.Pairwise.nil
+  | cons a t ih =>
+    cases t with
+    | nil => simp
+    | cons b t' =>
+      simp only [adjAll, Bool.and_eq_true, decide_eq_true_eq] at h
+      have hp := ih h.2
+      rw [List.pairwise_cons]
+      refine ⟨?_, hp⟩
+      intro x hx
+      rcases List.mem_cons.mp hx with hx | hx
+      · subst hx; exact h.1
+      · exact Nat.lt_trans h.1 ((List.pairwise_cons.mp hp).1 x hx)
+
+theorem sortElems_of_sorted (l : List Elem) (h : l.Pairwise (fun a b => a.id ≤ b.id)) : sortElems l = l := by
+  induction l with
+  | nil => rfl
+  | cons e t ih =>
+    rw [List.pairwise_cons] at h
+    show insertElem e (sortElems t) = e :: t
+    rw [ih h.2]
+    cases t with
+    | nil => rfl
+    | cons f t' => simp [insertElem, h.1 f (by simp)]
+
+/-- **C08_signed_guard_sound**: the same shortcut with the comparison made in a signed (or unbounded) type is behaviour-preserving:
+when every adjacent pair of the block-concatenated ids ascends, sorting by id is the identity. The idea of the shortcut is sound;
+only the unsigned arithmetic of the guard breaks it. -/
+theorem C08_signed_guard_sound (blocks : List (List Elem)) : flattenGuarded looksAscendingS blocks = flatten blocks := by
+  rcases blocks with _ | ⟨b, _ | ⟨c, t⟩⟩
+  · simp [flattenGuarded, flatten, sortElems]
+  · rfl
+  · simp only [flattenGuarded, flatten]
+    split
+    · rename_i hg
+      have hp := adjAll_lt_pairwise _ hg
+      rw [sortElems_of_sorted]
+      exact (List.pairwise_map.mp hp).imp (fun h => Nat.le_of_lt h)
+    · rfl
+
+/-- seeded change C08-8 (tri 1 4 6 + quad 2 3 5 7 with uint32 ids): with the unsigned guard the collection stays in block order,
+so it is not ascending and differs from `_update_self` -/
+theorem C08_counterexample_unsigned_shortcut :
+    let blocks : List (List Elem) := [[⟨1, 3, [1, 2, 3]⟩, ⟨4, 3, [2, 5, 3]⟩, ⟨6, 3, [5, 8, 9]⟩],
+                                     [⟨2, 5, [1, 2, 5, 4]⟩, ⟨3, 5, [2, 3, 6, 5]⟩, ⟨5, 5, [4, 5, 8, 7]⟩, ⟨7, 5, [5, 6, 9, 8]⟩]]
+    (flattenGuarded (looksAscendingU 32) blocks).map Elem.id = [1, 4, 6, 2, 3, 5, 7] ∧
+    (flatten blocks).map Elem.id = [1, 2, 3, 4, 5, 6, 7] ∧
+    elemPos (flattenGuarded (looksAscendingU 32) blocks) 2 = some 3 := by
+  decide
+
+/-- **C08_layout_C_roundtrip**: the frame row made in C order and cut back in C order (what every id-keyed read path does) is the
+tensor that `.data[k]` serves - whatever the memory layout of the array was. -/
+theorem C08_layout_C_roundtrip {α : Type} (q : Nat) (hq : 0 < q) (t : List (List α)) (ht : ∀ r ∈ t, r.length = q)
+    (fuel : Nat) (hf : t.length ≤ fuel) : unflattenC q fuel (flattenC t) = t := by
+  unfold flattenC
+  induction t generalizing fuel with
+  | nil => cases fuel <;> simp [unflattenC]
+  | cons r t' ih =>
+    cases fuel with
+    | zero => simp at hf
+    | succ f =>
+      have hr : r.length = q := ht r (by simp)
+      cases r with
+      | nil => simp at hr; omega
+      | cons x r' =>
+        have e : ((x :: r') :: t').flatten = x :: (r' ++ t'.flatten) := by simp
+        rw [e]
+        show (x :: (r' ++ t'.flatten)).take q :: unflattenC q f ((x :: (r' ++ t'.flatten)).drop q) = (x :: r') :: t'
+        have e2 : x :: (r' ++ t'.flatten) = (x :: r') ++ t'.flatten := rfl
+        rw [e2, List.take_left' hr, List.drop_left' hr]
+        rw [ih (fun r hr' => ht r (List.mem_cons_of_mem _ hr')) f (by simpa using hf)]
+
+/-- **C08_layout_A_symmetric**: flattening by memory layout (`order='A'`) agrees with C order on C-ordered input, and on
+Fortran-ordered input exactly when the tensor equals its transpose - which is why symmetric tensors (stresses, strains) and
+everything of rank <= 2 cannot see the difference. -/
+theorem C08_layout_A_symmetric {α : Type} (t : List (List α)) :
+    flattenA false t = flattenC t ∧ (transposeT t = t → flattenA true t = flattenC t) := by
+  refine ⟨rfl, ?_⟩
+  intro h
+  simp [flattenA, flattenC, h]
+
+/-- seeded change C08-7: a non-symmetric tensor handed over Fortran-ordered is stored transposed in the id-keyed frame, so
+`loc[id]` / `iloc[k]` / `filter_with_ids` return the transpose of what `.data[k]` serves -/
+theorem C08_counterexample_layout_A :
+    unflattenC 2 2 (flattenA true [[1, 2], [3, 4]]) = [[1, 3], [2, 4]] ∧
+    unflattenC 2 2 (flattenA false [[1, 2], [3, 4]]) = [[1, 2], [3, 4]] ∧
+    unflattenC 3 2 (flattenA true [[1, 2, 3], [4, 5, 6]]) = [[1, 4, 2], [5, 3, 6]] := by
+  decide
+
+/-- non-vacuity of `C08_layout_C_roundtrip` on a 2 x 3 tensor -/
+example : unflattenC 3 2 (flattenC [[1, 2, 3], [4, 5, 6]]) = [[1, 2, 3], [4, 5, 6]] := by decide
+
+end LayoutAndDtype
 
 end Femio.C08
